@@ -358,19 +358,111 @@ func c07Packets(w *World, wc *wireCtx, r *Report) {
 		}
 	}
 	// inline objects: somewhere under Generate the packet of an object attribute is handed to a per-packet emitter (or queued in a packet list)
+	otherGenerator := func(rn, own string) bool {
+		if rn == own {
+			return false
+		}
+		for _, g2 := range generators {
+			if g2.Type == rn {
+				return true
+			}
+		}
+		return false
+	}
 	for _, g := range generators {
 		gen := gens[g.Lang]
 		reach := w.subjectsOnly(w.reachable([]*ssa.Function{gen}, func(f *ssa.Function) bool { return w.isRepoLike(f) }))
 		handled := false
 		pos := w.pos(gen.Pos())
+		// handed: the packet v ends in a code emitter of this generator (not a sample-value builder) or in a packet list: directly,
+		// or through the helpers it is passed to - a walker shared with the sibling generators, with or without a record of its
+		// own, that is given the generator's emitter as a static callee, a closure or a function value kept in a member
+		var handed func(v ssa.Value, depth int, seen map[ssa.Value]bool) bool
+		handed = func(v ssa.Value, depth int, seen map[ssa.Value]bool) bool {
+			if v == nil || depth > 4 || seen[v] || v.Referrers() == nil {
+				return false
+			}
+			seen[v] = true
+			for _, ref := range *v.Referrers() {
+				switch x := ref.(type) {
+				case *ssa.Phi:
+					if handed(x, depth, seen) {
+						return true
+					}
+					continue
+				case *ssa.ChangeType:
+					if handed(x, depth, seen) {
+						return true
+					}
+					continue
+				case *ssa.Store:
+					// queued: stored into the element slot of an append(list, ...)
+					if x.Val != v {
+						continue
+					}
+					if ia, ok := x.Addr.(*ssa.IndexAddr); ok {
+						if al, ok := ia.X.(*ssa.Alloc); ok && al.Referrers() != nil {
+							for _, r2 := range *al.Referrers() {
+								if sl, ok := r2.(*ssa.Slice); ok && sl.Referrers() != nil {
+									for _, r3 := range *sl.Referrers() {
+										if c3, ok := r3.(*ssa.Call); ok {
+											if bi, ok := c3.Call.Value.(*ssa.Builtin); ok && bi.Name() == "append" {
+												return true
+											}
+										}
+									}
+								}
+							}
+						}
+					}
+					continue
+				}
+				c, ok := ref.(ssa.CallInstruction)
+				if !ok {
+					continue
+				}
+				if bi, ok := c.Common().Value.(*ssa.Builtin); ok && bi.Name() == "append" {
+					return true
+				}
+				args := c.Common().Args
+				for _, f := range calleesOfAll(c) {
+					if f == nil {
+						continue
+					}
+					rn := recvNamedCore(f)
+					if rn == g.Type {
+						// a code emitter, not a sample-value builder
+						if roleOf(f) != "test" {
+							return true
+						}
+						continue
+					}
+					// a helper under this Generate that is no part of another generator: what it does with the parameter
+					if !reach[f] || f.Blocks == nil || pkgOfFunc(f) != w.Parser || otherGenerator(rn, g.Type) {
+						continue
+					}
+					off := len(f.Params) - len(args) // a method value is called without its receiver
+					if off < 0 || off > 1 {
+						continue
+					}
+					for ai, a := range args {
+						if a == v && ai+off < len(f.Params) && handed(f.Params[ai+off], depth+1, seen) {
+							return true
+						}
+					}
+				}
+			}
+			return false
+		}
 		for _, fn := range sortedFuncs(reach) {
-			// the generator's own functions and the helpers without a receiver it shares with its siblings
-			if rn := recvNamedCore(fn); rn != g.Type && !(rn == "" && fn.Pkg == w.Parser && fn.Parent() == nil) {
+			// the generator's own functions and the helpers it shares with its siblings (functions and methods of records that
+			// are not generators themselves)
+			if rn := recvNamedCore(fn); rn != g.Type && (pkgOfFunc(fn) != w.Parser || otherGenerator(rn, g.Type)) {
 				continue
 			}
 			forEachInstr(fn, func(b *ssa.BasicBlock, ins ssa.Instruction) {
 				ld, ok := ins.(*ssa.UnOp)
-				if !ok {
+				if !ok || handled {
 					return
 				}
 				fa, ok := ld.X.(*ssa.FieldAddr)
@@ -380,44 +472,9 @@ func c07Packets(w *World, wc *wireCtx, r *Report) {
 				if tn, f, _, _ := fieldOf(fa); tn != "ObjectFieldAttribute" || f != "RefPacket" {
 					return
 				}
-				for _, ref := range *ld.Referrers() {
-					// queued: stored into the element slot of an append(list, ...)
-					if st, ok := ref.(*ssa.Store); ok && st.Val == ssa.Value(ld) {
-						if ia, ok := st.Addr.(*ssa.IndexAddr); ok {
-							if al, ok := ia.X.(*ssa.Alloc); ok && al.Referrers() != nil {
-								for _, r2 := range *al.Referrers() {
-									if sl, ok := r2.(*ssa.Slice); ok && sl.Referrers() != nil {
-										for _, r3 := range *sl.Referrers() {
-											if c3, ok := r3.(*ssa.Call); ok {
-												if bi, ok := c3.Call.Value.(*ssa.Builtin); ok && bi.Name() == "append" {
-													handled = true
-													pos = w.instrPos(ins)
-												}
-											}
-										}
-									}
-								}
-							}
-						}
-					}
-					c, ok := ref.(ssa.CallInstruction)
-					if !ok {
-						continue
-					}
-					if bi, ok := c.Common().Value.(*ssa.Builtin); ok && bi.Name() == "append" {
-						handled = true
-						pos = w.instrPos(ins)
-					}
-					// a static callee, or the emitter handed to a shared helper as a function value
-					for _, f := range calleesOfAll(c) {
-						if f != nil && recvNamedCore(f) == g.Type {
-							// a code emitter, not a sample-value builder
-							if roleOf(f) != "test" {
-								handled = true
-								pos = w.instrPos(ins)
-							}
-						}
-					}
+				if handed(ld, 0, map[ssa.Value]bool{}) {
+					handled = true
+					pos = w.instrPos(ins)
 				}
 			})
 		}
